@@ -280,8 +280,10 @@ impl ProgressBar {
 
     /// Update the `ProgressBar`'s inner [`ProgressState`]
     pub fn update(&self, f: impl FnOnce(&mut ProgressState)) {
-        self.state()
-            .update(Instant::now(), f, self.ticker.lock().unwrap().is_none());
+        // Check for a ticker before taking the state lock: `stop_and_replace_ticker` holds the
+        // ticker lock while it joins the ticker thread, which in turn needs the state lock.
+        let tick = self.ticker.lock().unwrap().is_none();
+        self.state().update(Instant::now(), f, tick);
     }
 
     /// Sets the position of the progress bar
